@@ -81,7 +81,7 @@ def finding_key(suite, ops, line, msg):
     cls = t[1] if len(t) > 1 else "reject"
     det = t[2] if len(t) > 2 else ""
     if cls.startswith("copy-"):
-        return "C11:cypher.Copy:%s:%s" % (cls[5:], re.sub(r"^[ab]:", "", det))
+        return "C11:cypher.Copy:%s:%s" % (cls[5:], re.sub(r"^[abe]:", "", det))
     if cls.startswith("walk-"):
         return "C11:walk.Generic:%s:%s" % (cls[5:], det.split(":")[0])
     if cls == "structural-misses-node":
@@ -96,7 +96,7 @@ SPEC = {
     "regen": do_regen,
     "lean_modules": ["Dawgs.Props.C11"],
     "theorems_by_module": THEOREMS,
-    "gate_modules": ["Dawgs.Model.C11", "Dawgs.Spec.C11", "Dawgs.Proofs.C11", "Dawgs.Proofs.C11Data", "Dawgs.Props.C11",
+    "gate_modules": ["Dawgs.Model.C11", "Dawgs.Spec.C11", "Dawgs.Proofs.C11", "Dawgs.Proofs.C11Data", "Dawgs.Proofs.C11Nodup", "Dawgs.Props.C11",
                      "Dawgs.Generated.C11"],
     "suites": [{"name": "c11", "model_suite": "c11", "monitor_suite": "c11mon", "model_input": model_input,
                 "impl_view": impl_view, "keep_prefix": 1, "thorough_seeds": 2}],
